@@ -697,7 +697,7 @@ SCRATCH = 0x500     # words saved before a branch point (slot kind "m")
 def slot_items(asm, s):
     """code pushing one calldata word of a cheatcode call:
        int | ("v", i) CALLDATALOAD of a_i | ("m", i) the copy of a_i saved at SCRATCH before the branch point |
-       ("eq", src, c) src == c | ("ne", src, c) src != c"""
+       ("eq", src, c) src == c | ("ne", src, c) src != c | ("lt"/"gt", src, c) | ("not", e) | ("or"/"and", e1, e2)"""
     if isinstance(s, int):
         return [("push", s % W)]
     if s[0] == "v":
@@ -706,6 +706,12 @@ def slot_items(asm, s):
         return [("push", SCRATCH + 32 * s[1]), "MLOAD"]
     if s[0] in ("eq", "ne"):
         return slot_items(asm, s[1]) + [("push", s[2] % W), "EQ"] + (["ISZERO"] if s[0] == "ne" else [])
+    if s[0] in ("lt", "gt"):            # unsigned src < c / src > c  (EVM: LT a b = a < b with a on top)
+        return [("push", s[2] % W)] + slot_items(asm, s[1]) + ["LT" if s[0] == "lt" else "GT"]
+    if s[0] == "not":
+        return slot_items(asm, s[1]) + ["ISZERO"]
+    if s[0] in ("or", "and"):           # operands are 0/1 words
+        return slot_items(asm, s[1]) + slot_items(asm, s[2]) + ["OR" if s[0] == "or" else "AND"]
     raise ValueError(s)
 
 
@@ -714,8 +720,20 @@ def slot_value(s, vals):
         return s % W
     if s[0] in ("v", "m"):
         return vals[s[1]] % W
-    v = int(slot_value(s[1], vals) == s[2] % W)
-    return v if s[0] == "eq" else 1 - v
+    if s[0] in ("eq", "ne"):
+        v = int(slot_value(s[1], vals) == s[2] % W)
+        return v if s[0] == "eq" else 1 - v
+    if s[0] == "lt":
+        return int(slot_value(s[1], vals) < s[2] % W)
+    if s[0] == "gt":
+        return int(slot_value(s[1], vals) > s[2] % W)
+    if s[0] == "not":
+        return int(slot_value(s[1], vals) == 0)
+    if s[0] == "or":
+        return slot_value(s[1], vals) | slot_value(s[2], vals)
+    if s[0] == "and":
+        return slot_value(s[1], vals) & slot_value(s[2], vals)
+    raise ValueError(s)
 
 
 def slot_vars(s):
@@ -723,7 +741,20 @@ def slot_vars(s):
         return []
     if s[0] in ("v", "m"):
         return [s[1]]
+    if s[0] in ("or", "and"):
+        return slot_vars(s[1]) + slot_vars(s[2])
     return slot_vars(s[1])
+
+
+def slot_consts(s):
+    """the constants a word expression compares with"""
+    if isinstance(s, int) or s[0] in ("v", "m"):
+        return []
+    if s[0] in ("eq", "ne", "lt", "gt"):
+        return [s[2] % W] + slot_consts(s[1])
+    if s[0] in ("or", "and"):
+        return slot_consts(s[1]) + slot_consts(s[2])
+    return slot_consts(s[1])
 
 
 def concretized(case, vals):
@@ -846,7 +877,8 @@ class SeqProg:
         out = []
         for st in self.steps:
             if isinstance(st, tuple):
-                if args[st[1]] % W != st[2] % W:
+                holds = slot_value(st[1], args) != 0 if st[0] == "require" else args[st[1]] % W == st[2] % W
+                if not holds:
                     break                      # the program returns here: nothing further is executed
                 continue
             out.append(concretized(st, args))
@@ -875,7 +907,8 @@ class SeqProg:
         for j, st in enumerate(self.steps):
             if isinstance(st, tuple):
                 lc = asm.fresh("cont")
-                items += asm.calldata_arg(st[1]) + [("push", st[2] % W), "EQ", ("ref", lc), "JUMPI", ("push", 1), ("ref", le), "JUMP", ("label", lc)]
+                test = slot_items(asm, st[1]) if st[0] == "require" else asm.calldata_arg(st[1]) + [("push", st[2] % W), "EQ"]
+                items += test + [("ref", lc), "JUMPI", ("push", 1), ("ref", le), "JUMP", ("label", lc)]
             else:
                 items += build_call(asm, st) + (["POP"] if j != last else [])
         if last != len(self.steps) - 1:
@@ -883,7 +916,11 @@ class SeqProg:
         items += [("label", le)]
         items += [("push", OUT), "MSTORE", "RETURNDATASIZE", ("push", OUT + 0x20), "MSTORE", ("push", RET_OFF), "MLOAD", ("push", OUT + 0x40), "MSTORE"]
         items += ([("push", 0)] if static else [("push", 1), "SLOAD"]) + [("push", OUT + 0x60), "MSTORE"]
-        items += [("push", MEM), "MLOAD", ("push", OUT + 0x80), "MSTORE", ("push", 0xA0), ("push", OUT), "RETURN"]
+        items += [("push", MEM), "MLOAD", ("push", OUT + 0x80), "MSTORE"]
+        # the words read again from calldata at the very end: they must still be the inputs, whatever was assumed about them
+        for i in range(self.nargs):
+            items += asm.calldata_arg(i) + [("push", OUT + 0xA0 + 32 * i), "MSTORE"]
+        items += [("push", 0xA0 + 32 * self.nargs), ("push", OUT), "RETURN"]
         return asm.assemble(items)
 
 
@@ -917,9 +954,58 @@ def seq_programs(ctx, G, entries):
     return progs
 
 
+def compound_programs(ctx, G, entries):
+    """vm.assume / a branch on a compound boolean condition over x = a0 (And / Or / Not nests of equalities and comparisons
+    with constants, De Morgan shapes), followed by uses of x that are read AFTER the condition was learned: a cheatcode
+    argument compared with the copy saved before, with a constant, the same condition asserted again — and x returned."""
+    rng = G.rng
+    by_sig = {e["sig"]: e["sel"] for e in entries}
+    X, Y = 0, 1
+    xa, xb = ("v", X), ("m", X)
+    progs = []
+
+    def conds(c1, c2):
+        e1, e2 = ("eq", xa, c1), ("eq", xa, c2)
+        return [
+            ("not-or-eq", ("not", ("or", e1, e2))),
+            ("and-ne", ("and", ("ne", xa, c1), ("ne", xa, c2))),
+            ("or-eq", ("or", e1, e2)),
+            ("not-and-ne", ("not", ("and", ("ne", xa, c1), ("ne", xa, c2)))),
+            ("and-eq-xy", ("and", e1, ("eq", ("v", Y), c2))),
+            ("not-or-eq-xy", ("not", ("or", e1, ("eq", ("v", Y), c2)))),
+            ("range", ("and", ("gt", xa, min(c1, c2)), ("lt", xa, max(c1, c2) + 3))),
+            ("not-or-range", ("not", ("or", ("lt", xa, min(c1, c2)), ("gt", xa, max(c1, c2))))),
+            ("not-or-eq-lt", ("not", ("or", e2, ("lt", xa, min(c1, c2))))),
+            ("not-not-eq", ("not", ("not", e1))),
+            ("not-or-3", ("not", ("or", e1, ("or", e2, ("eq", xa, c2 + 2))))),
+            ("or-not-eq", ("or", ("not", e1), e2)),
+        ]
+
+    pairs = [(5, 7), (0, 1), (W - 2, 1 << 255), (42, 40)]
+    k = 0
+    for learn in ("assume", "jumpi"):
+        for name, cond in conds(*pairs[0]):
+            c1, c2 = pairs[k % len(pairs)] if ctx.tier != "quick" and k % 3 == 2 else pairs[0]
+            cond = dict(conds(c1, c2))[name]
+            k += 1
+            first = Case(ASSUME_SEL, [cond], tag="cp-assume", sig="assume(bool)") if learn == "assume" else ("require", cond)
+            uses = [
+                Case(by_sig["assertEq(uint256,uint256)"], [xa, xb], tag="cp-reread-vs-saved", sig="assertEq(uint256,uint256)"),
+                Case(by_sig["assertNotEq(uint256,uint256)"], [xa, c2], tag="cp-vs-const", sig="assertNotEq(uint256,uint256)"),
+                Case(by_sig["assertTrue(bool)"], [cond], tag="cp-same-cond", sig="assertTrue(bool)"),
+                Case(by_sig["assertLt(uint256,uint256)"], [xa, c2 + 1], tag="cp-vs-const", sig="assertLt(uint256,uint256)"),
+                Case(by_sig["assertEq(bytes32,bytes32)"], [xb, xa], tag="cp-reread-vs-saved", sig="assertEq(bytes32,bytes32)"),
+            ]
+            chosen = uses if ctx.tier != "quick" else [uses[0], rng.choice(uses[1:])] if learn == "assume" else [rng.choice(uses)]
+            for u in chosen:
+                progs.append(SeqProg([first, u], [X], 2, tag=f"compound-{learn}|{name}|{u.tag}"))
+    return progs
+
+
 def seq_inputs(ctx, D, G, sp, scn, sr):
-    consts = sorted({st[2] % W for st in sp.steps if isinstance(st, tuple)} |
-                    {s[2] % W for c in sp.all_cases() for s in c.slots if isinstance(s, tuple) and s[0] in ("eq", "ne")})
+    consts = sorted({st[2] % W for st in sp.steps if isinstance(st, tuple) and st[0] == "require_eq"} |
+                    {k for st in sp.steps if isinstance(st, tuple) and st[0] == "require" for k in slot_consts(st[1])} |
+                    {k for c in sp.all_cases() for s in c.slots for k in slot_consts(s)})
     out, seen = [], set()
 
     def add(x, y, tag):
@@ -928,13 +1014,20 @@ def seq_inputs(ctx, D, G, sp, scn, sr):
             out.append(D.Inputs([x % W, y % W], 0xCAFE, 0xCAFE, 0, {}, 0))
             ctx.count("l2-input:" + tag)
 
+    if sp.tag.startswith("compound"):
+        xs = sorted({(c + d) % W for c in consts for d in (-1, 0, 1, 2)} | {1, 6, G.word()})
+        for x in xs:
+            for y in (consts[-1], 1):
+                add(x, y, "compound")
+        consts = []
     for c in consts:
         for y in (c, c + 1, c - 1, 0, 1 << 255, W - 1, G.word()):
             add(c, y, "seq-x-pinned")            # the path after the equality: y == c and y != c
         for x in (c + 1, c - 1, G.word()):
             for y in (c, x, G.word()):
                 add(x, y, "seq-x-other")
-    budget = time.time() + 0.5
+    # the directed grid already has inputs on both sides of every constant; solver models only top up small grids (quick)
+    budget = time.time() + (0.5 if ctx.tier != "quick" or len(out) < 12 else 0.0)
     for p in sr.paths:
         if time.time() > budget:
             break
@@ -1388,6 +1481,9 @@ def level2_programs(ctx, G, entries):
             progs.append((sp, rng.choice([ch for ch in chains if ch]) if r < 0.35 or ctx.tier != "quick" else rng.choice(deep2)))
         if ctx.tier != "quick":
             progs.append((sp, rng.choice(deep2)))
+    # compound boolean conditions learned by vm.assume / a branch, then the word is read again
+    for sp in compound_programs(ctx, G, entries):
+        progs.append((sp, [] if ctx.tier != "quick" and rng.random() < 0.5 or rng.random() < 0.7 else rng.choice([ch for ch in chains if ch])))
     # sibling paths from one branch point
     for bp in branch_programs(ctx, G, entries):
         progs.append((bp, []))
@@ -1463,7 +1559,7 @@ def run_level2(ctx, R, D, asm, G, progs, by_sel):
                     row.append(len(lines))
                     lines.append(request(c, [], "sat", "sat"))
                 rec["idx"].append(row)
-            for k, inp in enumerate(inputs[: ctx.scale(2, 4)]):
+            for k, inp in enumerate(inputs[: (ctx.scale(10, 24) if isinstance(bp, SeqProg) else ctx.scale(2, 4))]):
                 rec["evm"].append((k, len(evm_jobs)))
                 evm_jobs.append((scn, inp))
             jobs.append(rec)
